@@ -4,9 +4,15 @@ import json, subprocess, sys
 
 CHECKS = {
  # id: (engine, technique, level text, level note, design ref)
+ "C01": ("E1-history-bfs", "explicit-state BFS over operation histories of 21 real store types against a reference quad set, canonical key = content + term-index order; full product of shipped matcher kinds per state",
+         "Every reachable store state (content and hidden term-index order) up to the depth bound is visited for each shipped implementation incl. a 3-bit index width that makes index-full reachable; every mutation flag/count is compared with the mathematical set, and in each state contains(), all term enumerators and quads_matching over the product of real matcher kinds (constant, list, Option, slice, kind, Not, closure, datatype, language, quoted-triple; graph-name matchers) are compared with a reference filter. 16-bit exhaustion is explored on a store pre-filled with 65532 terms.",
+         "Small-scope hypothesis (10 colliding quads, depth bound); quick tier checks a state-dependent 1/16 slice of the matcher product per state (thorough: 1/4); Vec stores compared as lists.", "DESIGN.md §4 C01"),
  "C09": ("E3-product-automaton", "product of the DFA determinised from the crate's regex source with the DFA of the RFC 3987 ABNF (all strings), witness replay per product edge; bounded exhaustive string and (base, reference) pair enumeration against RFC 3986 5.2",
          "Language equality of the validator with RFC 3987 is decided for strings of every length by exploring all reachable product states; the model is bound to the code by construction (built from the crate's public regex source at run time) and by replaying a witness per product edge through every validating entry point. Base conversion, Namespace::get and resolution are checked exhaustively over all strings up to a length and all pairs of a generated IRI set.",
          "regex-automata determinisation; ABNF transcription (cross-checked against oxiri); RFC 3986 5.2 reference (validated on the 42 examples of 5.4); bounds of the string/pair enumerations.", "DESIGN.md §4 C09"),
+ "C10": ("E1-history-bfs", "explicit-state BFS over histories interleaving insert/remove/growth with clone, drop, swap and take on two slots; address-based self-containment audit (cfg hook) + content comparison in every state",
+         "All histories up to the depth bound over two slots for 10 store types; in every state the audit hook proves, by comparing addresses only, that each live index borrows exclusively from its own keys (the invariant behind the unsafe transmute), and contents/index order equal the reference, so that a clone sharing memory with its origin, or losing independence, is reported at the step that creates it.",
+         "Memory safety is reduced to the self-containment invariant of SimpleTermIndex (no sanitizer run in these tiers); small-scope hypothesis.", "DESIGN.md §4 C10"),
  "C11": ("E1-history-bfs", "explicit-state BFS over operation histories on the real stores, differential against a twin store and a reference set",
          "Every reachable state of 9 store types under direct and through-view mutations up to the stated depth is visited; in each state every view is compared with the projection of a reference quad set under all pattern shapes. Exhaustive within the bound, on the real code.",
          "Small-scope hypothesis (4 triples x 4 graph names, depth bound); rustc/std; the reference set model.", "DESIGN.md §4 C11"),
